@@ -123,6 +123,15 @@ def replacement_certainly_empty(it, u, ctx):
     return False
 
 
+EXPAND_OPAQUE = ['hideset_contains', 'find_macro', 'hideset_union', 'new_hideset', 'add_hideset', 'subst', 'append',
+                 'hideset_intersection', 'equal', 'copy_token']
+
+
+def expand_cut_names(u):
+    """the callees the exploration of expand_macro does not look into"""
+    return set(EXPAND_OPAQUE + list_passes(u, 'expand_macro') + ['read_macro_args'])
+
+
 def explore_expand(P, u, with_empty=False):
     """paths of expand_macro(rest, tok) with every helper opaque; returns (it, [(ctx, out, info)]).
     with_empty=False: paths on which the replacement is known to be empty are left out (there is no first token of the
@@ -186,8 +195,7 @@ def _explore_expand(P, u):
                 return r
             return super().e_CallExpr(n, env)
 
-    it = EI(P, u, {'opaque': ['hideset_contains', 'find_macro', 'hideset_union', 'new_hideset', 'add_hideset', 'subst', 'append',
-                              'hideset_intersection', 'equal', 'copy_token'] + list_passes(u, 'expand_macro'),
+    it = EI(P, u, {'opaque': EXPAND_OPAQUE + list_passes(u, 'expand_macro'),
                    'cut': {'read_macro_args': cut_rma}, 'loop_limit': 2, 'track_stores': True})
     def mk(ctx):
         box = {'rest': 0}
@@ -204,10 +212,43 @@ def _explore_expand(P, u):
 SUBST_ANCHORS = ('subst', 'find_arg', 'stringize', 'paste', 'preprocess2', 'copy_token', 'read_macro_arg_one', 'has_varargs')
 
 
+SUBST_CUT = ('preprocess2', 'has_varargs', 'skip', 'read_macro_arg_one', 'stringize', 'paste', 'subst', 'copy_token', 'equal', 'find_arg')
+PROBE_MAX_PATHS = 3000
+
+
+def subst_probe(P, u):
+    """subst on replacement lists WITHOUT any parameter or operator (0..2 ordinary tokens): (it, paths, hits) where hits are the
+    calls (ctx, event) of functions that can reach expand_macro. With no parameter in the list nothing may be macro-expanded
+    (C11 6.10.3.1p1): a hit is work subst does on the arguments whatever the replacement list uses - which also multiplies
+    the paths of every parameter-driven exploration of subst, so those are not started then (require_quiet_subst)."""
+    from .lib_c09 import OTHER
+    from .lib_c09z import expanders
+    memo = _memo(P)
+    if 'probe' not in memo:
+        try:
+            it, paths, classes = _explore_subst(P, u, 2, [OTHER], PROBE_MAX_PATHS)
+            R = expanders(u)
+            hits = [(ctx, e) for ctx, out in paths for e in ctx.events if e[0] == 'call' and e[1] in R]
+            memo['probe'] = (it, paths, hits, None)
+        except AnalysisBroken as e:
+            memo['probe'] = (None, [], [], str(e))
+    return memo['probe']
+
+
+def require_quiet_subst(P, u):
+    it, paths, hits, broken = subst_probe(P, u)
+    if broken:
+        raise AnalysisBroken('subst on a replacement list without parameters could not be explored (%s): the parameter-driven explorations are not started' % broken)
+    if hits:
+        raise AnalysisBroken('subst calls %s for a replacement list that has no parameter at all (line %d): work on the arguments that does not depend on the '
+                             'replacement list multiplies every path; the parameter-driven explorations are not started (R09.23 reports the call)' % (hits[0][1][1], hits[0][1][3]))
+
+
 def explore_subst(P, u, loop_limit=2, only=None, max_paths=200000):
     """paths of subst(body, args) over abstract body tokens; each token has one spelling-class cell.
     only: restrict the spellings of replacement-list tokens to these classes (a sub-language of replacement lists).
     One exploration per Program and parameter set: the consumers only read the paths."""
+    require_quiet_subst(P, u)
     memo = _memo(P)
     key = ('subst', loop_limit, tuple(only) if only else None, max_paths)
     if key not in memo:
@@ -294,6 +335,7 @@ def explore_subst_shared(P, u, body_classes, loop_limit=2):
             raise AnalysisBroken('anchor function %s vanished from %s' % (f, U))
     known = literals_compared(u.fn('subst')) + [PARAM, OTHER]
     body_classes = [c for c in body_classes if c in known]
+    require_quiet_subst(P, u)
 
     def cell_for(it, ctx, t):
         return tok_class_cell(it, ctx, t, body_classes)
